@@ -90,24 +90,48 @@ pub fn filter_scan_rule() -> Vec<Rewrite> { vec![
     rw!("filter-scan";
         "(filter ?cond (scan ?table ?columns true))" =>
         "(scan ?table ?columns ?cond)"
-        if is_primary_key_range("?cond")
+        if is_primary_key_range("?cond", "?columns")
     ),
     rw!("filter-scan-1";
         "(filter (and ?cond1 ?cond2) (scan ?table ?columns true))" =>
         "(filter ?cond2 (scan ?table ?columns ?cond1))"
-        if is_primary_key_range("?cond1")
+        if is_primary_key_range("?cond1", "?columns")
     ),
 ]}
 
-/// Returns true if the expression is a primary key range.
-fn is_primary_key_range(expr: &str) -> impl Fn(&mut EGraph, Id, &Subst) -> bool {
+/// Returns true if the expression is a primary key range that the storage scan can evaluate.
+///
+/// The storage applies the range to the first scanned column, seeks through the block index of
+/// the table's first column and compares `INT` keys only. So the key must be an `INT` column
+/// stored first in the table (hence the leading sort key), scanned first, with `INT` bounds.
+fn is_primary_key_range(expr: &str, columns: &str) -> impl Fn(&mut EGraph, Id, &Subst) -> bool {
+    use std::ops::Bound;
+
+    use crate::types::{DataType, DataValue};
+    let columns = var(columns);
     let var = var(expr);
     move |egraph, _, subst| {
-        let Some((column, _)) = &egraph[subst[var]].data.range else {
+        let Some((column, range)) = &egraph[subst[var]].data.range else {
             return false;
         };
+        let is_int_bound = |b: &Bound<DataValue>| match b {
+            Bound::Unbounded => true,
+            Bound::Included(v) | Bound::Excluded(v) => matches!(v, DataValue::Int32(_)),
+        };
+        if !is_int_bound(&range.start) || !is_int_bound(&range.end) {
+            return false;
+        }
+        let scanned_first = egraph[subst[columns]].nodes.iter().any(|node| match node {
+            Expr::List(list) => list.first().is_some_and(|first| {
+                (egraph[*first].nodes.iter()).any(|e| matches!(e, Expr::Column(c) if c == column))
+            }),
+            _ => false,
+        });
+        if !scanned_first {
+            return false;
+        }
         if let Some(col) = egraph.analysis.catalog.get_column(column) {
-            col.is_primary()
+            col.is_primary() && column.column_id == 0 && col.data_type() == DataType::Int32
         } else {
             // handle the case that catalog is not initialized, like in test cases
             false
